@@ -57,6 +57,20 @@ func main() {
 		os.Exit(runList(&o))
 	case "dump":
 		os.Exit(runDump(&o))
+	case "funcs":
+		os.Exit(runFuncs(&o))
+	case "ssa":
+		w, err := loadWorld(o.repo, o.verif)
+		if err != nil {
+			fmt.Fprintln(os.Stderr, "load:", err)
+			os.Exit(2)
+		}
+		if fn := w.fnByKey[o.fn]; fn != nil {
+			fn.WriteTo(os.Stdout)
+		} else {
+			fmt.Println("no such function", o.fn)
+		}
+		os.Exit(0)
 	case "replay":
 		os.Exit(runReplay(&o, fs.Args()))
 	default:
@@ -232,4 +246,33 @@ func runCheck(o *Options) int {
 
 	rep := buildReport(w, o, encs, obls, grounds, lemmas, loadMs, start)
 	return rep.finish(w, o, start)
+}
+
+func runFuncs(o *Options) int {
+	w, err := loadWorld(o.repo, o.verif)
+	if err != nil {
+		fmt.Fprintln(os.Stderr, "load:", err)
+		return 2
+	}
+	var ks []string
+	for k := range w.fnByKey {
+		ks = append(ks, k)
+	}
+	sort.Strings(ks)
+	for _, k := range ks {
+		fn := w.fnByKey[k]
+		mark := " "
+		if c := w.cs.Funcs[k]; c != nil {
+			mark = "C"
+			if c.Trusted != "" {
+				mark = "T"
+			}
+		}
+		nb, ni := len(fn.Blocks), 0
+		for _, b := range fn.Blocks {
+			ni += len(b.Instrs)
+		}
+		fmt.Printf("%s %-70s blocks=%d instrs=%d %s\n", mark, k, nb, ni, relPath(w.repo, w.fset.Position(fn.Pos()).Filename))
+	}
+	return 0
 }
